@@ -1,6 +1,6 @@
 """C15 — every low-level encoder and its decoder are mutually inverse."""
 import struct
-from lib.ser import Ok, Err, res, Raw
+from lib.ser import Ok, Err, res, Raw, Opt
 from vcheck import Corr, Sweep
 
 RULE = ("boundary-directed integers (every decision constant of each codec +-2, powers of two +-1) plus uniform "
@@ -202,6 +202,43 @@ def correspondences(tier, rng):
             return (list(got), list(b[pos:]))
         return res(run)
     out.append(Corr("decompileDeltas", dcases, impl_decomp))
+
+    # --- packed point numbers
+    def gen_points():
+        pts = []; cur = 0
+        for _ in range(rng.randint(0, 5)):
+            k = rng.below(5)
+            ln = rng.choice([1, 2, 126, 127, 128, 129, 130, 255, 256]) if rng.chance(20) else rng.randint(1, 8)
+            for _j in range(ln):
+                step = rng.randint(1, 3) if k == 0 else rng.choice([1, 254, 255, 256, 257]) if k == 1 else rng.randint(256, 3000) if k == 2 else \
+                       rng.choice([65535, 65536, 40000, 1]) if k == 3 else rng.randint(1, 400)
+                cur += step; pts.append(cur)
+        if pts and rng.chance(15): pts[0] = 0 if pts[0] > 0 and 0 not in pts else pts[0]
+        return sorted(set(pts))
+    pcases = [gen_points() for _ in range(n // 2)]
+    def oracle_points(pts):
+        try: b = bytes(TV.compilePoints(set(pts)))
+        except ValueError: return None
+        got, pos = TV.decompilePoints_(50, b, 0, "gvar")
+        if (list(got) != list(pts) if pts else got != range(50)) or pos != len(b): return "points %r compile to %r and decode to %r" % (pts[:20], list(b)[:30], list(got)[:20])
+        return None
+    out.append(Corr("compilePoints", pcases, lambda pts: res(lambda: list(TV.compilePoints(set(pts)))), oracle=oracle_points))
+    qcases = []
+    for pts in pcases:
+        try: b = list(TV.compilePoints(set(pts)))
+        except ValueError: continue
+        k = rng.below(6)
+        if k == 0 and b: b = b[: rng.randint(0, len(b) - 1)]
+        elif k == 1 and b: b[rng.below(len(b))] = rng.below(256)
+        elif k == 2: b = b + [rng.below(256) for _ in range(rng.randint(1, 4))]
+        qcases.append(b)
+    def impl_decomp_points(b):
+        def run():
+            got, pos = TV.decompilePoints_(2**40, bytes(b), 0, "gvar")
+            if isinstance(got, range): return (Opt(None, some=False), list(b[pos:]))
+            return (Opt(list(got), some=True), list(b[pos:]))
+        return res(run)
+    out.append(Corr("decompilePoints", qcases, impl_decomp_points))
     return out
 
 def sweeps(tier, rng):
